@@ -35,6 +35,11 @@ Input(e) == IF e.fn = "ReadPoint" /\ Len(e.buf) >= WCB THEN SubSeq(e.buf, 1, WCB
 Reason(e) == IF e.fn = "SetBytesUncompressed" THEN ReasonUncompressed(Input(e)) ELSE ReasonCompressed(Input(e))
 Point(e)  == IF e.fn = "SetBytesUncompressed" THEN EDecUncompressed(Input(e))[2] ELSE EDec(Input(e))[2]
 
+(* sub-class of the accepted inputs: the canonical y agrees with (p-1)/2 -- the boundary of the sign choice -- on its top 64 bits *)
+HalfP == NShr(NSub(WP, NOfInt(1)), 1)
+YBoundary(e) == LET P == Point(e) IN NShr(P[2], 192) = NShr(HalfP, 192)
+Class(e, why) == IF why = "accept" /\ YBoundary(e) THEN "accept-yboundary" ELSE why
+
 DecodeDevs(l0, e, why) ==
   LET sig(x) == <<"decode", e.fn, x>> IN
   IF Has(e, "panic") THEN <<Dev(l0, "C06", <<e.fn, "panicked", e.panic>>, sig("panic"))>>
@@ -51,7 +56,7 @@ Init == l = 1 /\ bad = <<>> /\ cnt = << >>
 Next == /\ l <= Len(Trace)
         /\ LET e == Trace[l]  why == Reason(e)
            IN  /\ bad' = AddBad(bad, DecodeDevs(l, e, why))
-               /\ cnt' = Bump(cnt, e.fn \o "/" \o why)
+               /\ cnt' = Bump(cnt, e.fn \o "/" \o Class(e, why))
         /\ l' = l + 1
 Spec == Init /\ [][Next]_vars
 Finished == l = Len(Trace) + 1 => WriteVerdict(l, bad, cnt)
